@@ -57,10 +57,19 @@ void h_lemma_slot_injective(void)
 
 /* ---------------- constructor ---------------- */
 #define NEWCAP_OK(c, req) (POW2(c) && (req) <= (c) && (((c) >> 1) < (req) || (req) == 0))
-void DynamicRingBuffer_ctor_contract(DynamicRingBuffer *self, size_t requestedCapacity)
-__CPROVER_requires(IORA_TRUE && __CPROVER_is_fresh(self, sizeof(*self)))
-__CPROVER_requires(requestedCapacity <= RB_MAXCAP)      /* allocation succeeds */
+#define CTOR_PRE \
+__CPROVER_requires(IORA_TRUE && __CPROVER_is_fresh(self, sizeof(*self))) \
+__CPROVER_requires(requestedCapacity <= RB_MAXCAP)      /* allocation succeeds */ \
 __CPROVER_assigns(self->_capacity, self->_mask, self->_buffer, self->_head, self->_tail)
+
+/* proof "ctor_safety": built-in obligations, frame, allocation-size precondition of the stub */
+void DynamicRingBuffer_ctor_safety(DynamicRingBuffer *self, size_t requestedCapacity)
+CTOR_PRE
+/* CT0 */ __CPROVER_ensures(self->_head == 0 && self->_tail == 0)
+;
+/* proof "ctor": functional clauses */
+void DynamicRingBuffer_ctor_contract(DynamicRingBuffer *self, size_t requestedCapacity)
+CTOR_PRE
 /* CT1 the invariant is established, the view is empty */ __CPROVER_ensures(WF(self) && self->_head == self->_tail)
 /* CT2 capacity is the least power of two >= request   */ __CPROVER_ensures(NEWCAP_OK(self->_capacity, requestedCapacity))
 /* CT3 the buffer has capacity slots                   */ __CPROVER_ensures(__CPROVER_is_fresh(self->_buffer, self->_capacity * sizeof(uint64_t)))
@@ -231,11 +240,21 @@ void h_tryPopBatch(void)
 
 /* ---------------- resize ---------------- */
 #define KEPT RB_MIN(__CPROVER_old(self->_head) - __CPROVER_old(self->_tail), self->_capacity)
-size_t DynamicRingBuffer_resize_contract(DynamicRingBuffer *self, size_t newRequestedCapacity)
-RB_PRE(self)
-__CPROVER_requires(newRequestedCapacity <= RB_MAXCAP)      /* allocation succeeds (else std::bad_alloc before any state change) */
-__CPROVER_assigns(RB_GHOST, self->_head, self->_tail, self->_capacity, self->_mask, self->_buffer, __CPROVER_object_whole(self->_buffer))
+#define RESIZE_PRE \
+RB_PRE(self) \
+__CPROVER_requires(newRequestedCapacity <= RB_MAXCAP)      /* allocation succeeds (else std::bad_alloc before any state change) */ \
+__CPROVER_assigns(RB_GHOST, self->_head, self->_tail, self->_capacity, self->_mask, self->_buffer, __CPROVER_object_whole(self->_buffer)) \
 __CPROVER_frees(self->_buffer)
+
+/* proof "resize_safety": every built-in obligation (bounds, pointers incl. use of the released array, overflow), frame, loop
+ * invariant/variant, and the representation invariant */
+size_t DynamicRingBuffer_resize_safety(DynamicRingBuffer *self, size_t newRequestedCapacity)
+RESIZE_PRE
+/* RS0 */ __CPROVER_ensures(WF(self))
+;
+/* proof "resize": the functional clauses (built-in checks are in resize_safety) */
+size_t DynamicRingBuffer_resize_contract(DynamicRingBuffer *self, size_t newRequestedCapacity)
+RESIZE_PRE
 /* RS1 */ __CPROVER_ensures(WF(self) && NEWCAP_OK(self->_capacity, newRequestedCapacity))
 /* RS2 */ __CPROVER_ensures(self->_tail == 0 && self->_head == KEPT)
 /* RS3 */ __CPROVER_ensures(__CPROVER_return_value == (__CPROVER_old(self->_head) - __CPROVER_old(self->_tail)) - KEPT)
